@@ -102,6 +102,16 @@ def gen_cases(rng, n):
                               fluxes=[float(v) for v in rng.uniform(5, 500, m)], rs=[float(v) for v in rng.uniform(0.8, 6, m)],
                               thetas=[float(v) for v in rng.uniform(0, 3, m)] if rng.random() < 0.5 else None,
                               container=str(rng.choice(["dict", "dataframe", "recarray"])), sky_guess=float(rng.normal(0, 1)), sky_err=float(np.exp(rng.uniform(-3, 0)))))
+            c = cases[-1]
+            if (k // 3) % 2 == 0:
+                # catalogues written by other tools carry a junk radius for point sources (galfit: -99; or NaN): the row's radius is not used
+                if (k // 6) % 2 == 0:
+                    c["types"][0] = "pointsource"
+                for j, t in enumerate(c["types"]):
+                    if t == "pointsource":
+                        c["rs"][j] = [-99.0, float("nan")][(k // 3 + j) % 2]
+        if k % 4 == 1:
+            cases[-1]["sky_guess"] = 0.0       # a background-subtracted image: the sky level guess is exactly zero, its uncertainty is not
     return cases
 
 
